@@ -527,7 +527,7 @@ Token *tokenize(File *file) {
     if (*p == '\n') {
       p++;
       at_bol = true;
-      has_space = false;
+      has_space = true;
       continue;
     }
 
